@@ -20,15 +20,15 @@ import (
 // yields a subset of at most k pairs, non-empty iff the unlimited result is non-empty.
 
 type optVector struct {
-	OnDemand    bool
-	PkgFilter   string
-	Summaries   bool
-	Paths       bool
-	Coverage    bool
-	NoCallee    bool
-	CovFilter   string
-	LogLevel    int
-	MaxAlarms   int
+	OnDemand  bool
+	PkgFilter string
+	Summaries bool
+	Paths     bool
+	Coverage  bool
+	NoCallee  bool
+	CovFilter string
+	LogLevel  int
+	MaxAlarms int
 }
 
 func (o optVector) String() string {
@@ -366,14 +366,16 @@ func c05Testdata(t *testing.T, rec *core.Recorder, reports string) {
 			got := run(y)
 			nt := len(base.Pairs) >= 2 && (o.OnDemand || o.PkgFilter != "" || o.MaxAlarms > 0)
 			rec.Case(core.Hash(name, o.String()), nt, []string{"testdata:" + name, fmt.Sprintf("maxalarms:%d", o.MaxAlarms), fmt.Sprintf("ondemand:%v", o.OnDemand)},
-				func() any { return map[string]any{"testdata": name, "vector": o.String(), "baseline_pairs": len(base.Pairs)} })
+				func() any {
+					return map[string]any{"testdata": name, "vector": o.String(), "baseline_pairs": len(base.Pairs)}
+				})
 			if got == nil {
 				rec.Count("variant_over_budget", 1)
 				return
 			}
 			if got.Panic != "" {
 				msg := env.Report(core.Violation{ID: "C05", Signature: "testdata-panic-" + panicSite(got.Panic),
-					What: "analysis of testdata/" + name + " panicked under [" + o.String() + "]: " + oneLine(got.Panic),
+					What:  "analysis of testdata/" + name + " panicked under [" + o.String() + "]: " + oneLine(got.Panic),
 					Files: map[string]string{"testdata.txt": dir + "\n", "variant-config.yaml": y, "vector.txt": fmt.Sprintf("%d\n%s\n", o.MaxAlarms, o)}, Kind: "c05-testdata"})
 				rt.Fatalf("%s", msg)
 			}
